@@ -347,16 +347,28 @@ def _check_leaf_predicates(ctx, sim) -> None:
                       f"nor one of those classes (e.g. a mid-circuit Measurement) can precede a Preparation without being refused",
                       "not isinstance(previous_instruction, Preparation)")
     fn = sim.methods["_validate_measurements_at_end"]
-    txt = norm(fn.node)
-    need = ["isinstance(instruction, Measurement)", "len(instructions) - 1", "_measurement_classes_allowed_mid_circuit"]
-    miss = [t for t in need if t not in txt]
+    # structural (the loop variables may be called anything): an isinstance(., Measurement) test, a comparison of the position with
+    # len(<instructions>) - 1, and an isinstance(., self._measurement_classes_allowed_mid_circuit) test
+    lst = fn.params()[1] if len(fn.params()) > 1 else "instructions"
+    has = {"isinstance(., Measurement)": False, "position != len(instructions) - 1": False, "_measurement_classes_allowed_mid_circuit": False}
+    for n in ast.walk(fn.node):
+        if isinstance(n, ast.Call) and dotted(n.func) == "isinstance" and len(n.args) == 2:
+            if norm(n.args[1]).split(".")[-1] == "Measurement":
+                has["isinstance(., Measurement)"] = True
+            if norm(n.args[1]).endswith("_measurement_classes_allowed_mid_circuit"):
+                has["_measurement_classes_allowed_mid_circuit"] = True
+        if isinstance(n, ast.Compare) and any(norm(x) == f"len({lst}) - 1" for x in [n.left] + list(n.comparators)):
+            has["position != len(instructions) - 1"] = True
+    miss = [k for k, v in has.items() if not v]
     ctx.obligation("C13a", f"{fn.qualname}|tests-mid-circuit", not miss)
     if miss:
         ctx.violation("C13a", f"{fn.qualname}|tests-mid-circuit", fn.file, fn.line,
                       f"_validate_measurements_at_end no longer tests {miss}", "; ".join(miss))
     fn = sim.methods["_validate_initial_state"]
+    ps_ = fn.params()
+    st_p, d_p = (ps_[1], ps_[2]) if len(ps_) >= 3 else ("initial_state", "d")
     txt = norm(fn.node)
-    need = ["isinstance(initial_state, self._state_class)", "initial_state.d != d"]
+    need = [f"isinstance({st_p}, self._state_class)", f"{st_p}.d != {d_p}"]
     miss = [t for t in need if t not in txt]
     ctx.obligation("C13a", f"{fn.qualname}|tests-type-and-d", not miss)
     if miss:
